@@ -442,7 +442,7 @@ Definition rt_ok (d : prop) : bool :=
   end.
 
 
-(* what the reader looks at: everything but the field's presence *)
+(* what the reader looks at: everything but the field's presence and its proto name *)
 Definition c04_proj (o : fout) : fout :=
-  FO (fo_json o) (fo_number o) (fo_kind o) (fo_rep o) (fo_opt o) false (fo_val o)
+  FO (fo_json o) [] (fo_number o) (fo_kind o) (fo_rep o) (fo_opt o) false (fo_val o)
      (fo_ext o) (fo_list o) (fo_key o) (fo_desc o).
